@@ -14,7 +14,7 @@ EXTENDS JoseDefs, TLC, Json
 
 CONSTANTS Dev, Family
 DevNames == {"CritNotChecked", "StrictIgnoredOnConsume", "CheckMoreNotPassed", "RequiredCustomIgnored",
-             "B64CritNotRequired", "BoolIsInt", "TypesUncheckedInJson", "StopAtFirstUsable"}
+             "B64CritNotRequired", "BoolIsInt", "TypesUncheckedInJson", "StopAtFirstUsable", "StaleHeaderSnapshot"}
 ASSUME Dev \subseteq DevNames
 
 JT == {"absent", "str_ok", "str_bad", "int_pos", "int_zero", "int_neg", "float", "true", "false", "null",
@@ -39,16 +39,22 @@ SersOf(m) == CASE m = "jws" -> {"compact", "flattened", "general"} [] m = "jws77
                [] OTHER -> {"compact", "flattened", "general"}
 
 CustomP(kind) == IF kind = "none" THEN {} ELSE {HP("custom", "int", kind = "req")}
-Registry(m, custom) ==
+\* (tables: TLC evaluates a constant definition once; the operators below are looked up several times per state)
+Customs == {"none", "opt", "req"}
+RegistryDef(m, custom) ==
   (CASE m = "jws" -> JwsHeader [] m = "jws7797" -> Jws7797Header [] OTHER -> JweHeader \cup AlgHeader(m))
   \cup CustomP(custom)
-RegNames(m, custom) == {h.name : h \in Registry(m, custom)}
-ParamOf(m, custom, n) == CHOOSE h \in Registry(m, custom) : h.name = n
-
+RegistryT == [m \in Modes |-> [cu \in Customs |-> RegistryDef(m, cu)]]
+Registry(m, custom) == RegistryT[m][custom]
+RegNamesT == [m \in Modes |-> [cu \in Customs |-> {h.name : h \in RegistryT[m][cu]}]]
+RegNames(m, custom) == RegNamesT[m][custom]
+ParamT == [m \in Modes |-> [cu \in Customs |-> [n \in RegNamesT[m][cu] |-> CHOOSE h \in RegistryT[m][cu] : h.name = n]]]
+ParamOf(m, custom, n) == ParamT[m][custom][n]
+AlgHeaderT == [m \in Modes |-> AlgHeader(m)]
 \* parameters every case carries (with good values) besides the focus parameter
 BaseNames(m, op) ==
   (IF SideOf(m) = "jws" THEN {"alg"} ELSE {"alg", "enc"})
-  \cup (IF op = "consume" THEN {h.name : h \in {x \in AlgHeader(m) : x.required}} ELSE {})
+  \cup (IF op = "consume" THEN {h.name : h \in {x \in AlgHeaderT[m] : x.required}} ELSE {})
   \cup (IF m = "pbes2" THEN {"p2c"} ELSE {})      \* the harness fixes a small iteration count
 
 AllNames == {h.name : h \in Jws7797Header \cup JweHeader} \cup {"iv", "tag", "epk", "apu", "apv", "skid", "p2s", "p2c", "custom", "xyz"}
@@ -65,7 +71,11 @@ Positions(m, ser, p) ==
 \* the second per-recipient header, and the registry either demands every recipient (default) or is content with any
 RcpShapes(m, op, ser, pos) ==
   IF m \in {"kw", "gcmkw", "pbes2"} /\ op = "consume" /\ ser = "general" /\ pos = "recipient"
-  THEN {"single", "first_all", "second_all", "first_any", "second_any"} ELSE {"single"}
+  THEN {"single", "first_all", "second_all", "first_any", "second_any"}
+  \* producing with an encryption object that was already encrypted once (with a good header) and whose public header
+  \* dictionaries were then edited in place to this case's header: the check is about the header as it is now
+  ELSE IF SideOf(m) = "jwe" /\ op = "produce" /\ ser # "compact" THEN {"single", "reused_object"}
+  ELSE {"single"}
 
 Case(m, op, ser, strict, custom, p, c, pos, crit, rcp) ==
   [mode |-> m, op |-> op, ser |-> ser, strict |-> strict, custom |-> custom, p |-> p, c |-> c, pos |-> pos, crit |-> crit, rcp |-> rcp]
@@ -79,8 +89,8 @@ Registered(case, n) == n \in RegNames(case.mode, case.custom)
 RequiredMissing(case) ==
   \E h \in Registry(case.mode, case.custom) :
     /\ ~Present(case, h.name)
-    /\ \/ (h.required /\ h \in (Registry(case.mode, case.custom) \ AlgHeader(case.mode)))
-       \/ (h.required /\ h \in AlgHeader(case.mode) /\ case.op = "consume")
+    /\ \/ (h.required /\ h \in (Registry(case.mode, case.custom) \ AlgHeaderT[case.mode]))
+       \/ (h.required /\ h \in AlgHeaderT[case.mode] /\ case.op = "consume")
 
 FocusIllTyped(case) == /\ case.c # "absent" /\ case.p # "crit" /\ Registered(case, case.p)
                        /\ ~TypeOk(ParamOf(case.mode, case.custom, case.p).type, case.c)
@@ -97,7 +107,7 @@ Unregistered(case) == case.strict /\ case.c # "absent" /\ ~Registered(case, case
 \* the other recipient of a two-recipient token carries no focus parameter: a required caller-registered parameter is
 \* missing there, and a protected "crit" naming the focus parameter names something absent from that recipient's header
 OtherRecipientLacks(case) ==
-  case.rcp # "single" /\ (case.custom = "req" \/ (case.p # "crit" /\ case.crit = "lists_focus"))
+  case.rcp \notin {"single", "reused_object"} /\ (case.custom = "req" \/ (case.p # "crit" /\ case.crit = "lists_focus"))
 
 Violated(case) == RequiredMissing(case) \/ FocusIllTyped(case) \/ CritBad(case) \/ B64NeedsCrit(case) \/ Unregistered(case)
                   \/ OtherRecipientLacks(case)
@@ -122,17 +132,17 @@ vars == <<case, pc, out>>
 
 FocusParams(m) == RegNames(m, "opt") \cup {"xyz", "b64", "epk", "p2c", "iv", "kid"}
 
-CasesOf(m) ==
-  UNION {UNION {UNION {{Case(m, op, ser, strict, custom, p, c, pos, crit, rcp) :
-                   strict \in (IF p \in {"xyz", "custom", "b64", "epk"} THEN BOOLEAN ELSE {TRUE}),
-                   custom \in (IF p \in {"custom", "xyz"} THEN {"none", "opt", "req"} ELSE {"none"}),
-                   c \in JT, rcp \in RcpShapes(m, op, ser, pos),
-                   crit \in (IF p \in {"b64", "custom", "typ", "xyz"} THEN CritShapes ELSE {"absent"})} :
-                  pos \in Positions(m, ser, p)} :
-                op \in {"produce", "consume"}, ser \in SersOf(m)} : p \in FocusParams(m)}
+\* the case space is enumerated by nested quantifiers (TLC never builds - and normalises - the product set)
+InitCase(m) ==
+  \E p \in FocusParams(m) : \E op \in {"produce", "consume"}, ser \in SersOf(m) : \E pos \in Positions(m, ser, p) :
+    \E strict \in (IF p \in {"xyz", "custom", "b64", "epk"} THEN BOOLEAN ELSE {TRUE}),
+       custom \in (IF p \in {"custom", "xyz"} THEN {"none", "opt", "req"} ELSE {"none"}),
+       c \in JT, rcp \in RcpShapes(m, op, ser, pos),
+       crit \in (IF p \in {"b64", "custom", "typ", "xyz"} THEN CritShapes ELSE {"absent"}) :
+      case = Case(m, op, ser, strict, custom, p, c, pos, crit, rcp)
 
 IsInitial == pc = (IF case.rcp \in {"second_all", "second_any"} THEN "other_rcp" ELSE "crit")
-Init == /\ case \in CasesOf(Family) /\ IsInitial /\ out = "none"
+Init == /\ InitCase(Family) /\ IsInitial /\ out = "none"
 Fail == pc' = "done" /\ out' = "fail" /\ UNCHANGED case
 Goto(l) == pc' = l /\ UNCHANGED <<case, out>>
 
@@ -154,7 +164,8 @@ CritFailsO ==
   \/ (case.p = "crit" /\ case.c \notin {"absent", "list_empty"})
 CheckCrit ==
   /\ pc = "crit"
-  /\ IF "CritNotChecked" \notin Dev /\ CritFailsO THEN Fail ELSE Goto("b64")
+  /\ IF "StaleHeaderSnapshot" \in Dev /\ case.rcp = "reused_object" THEN Goto("operate")     \* the gates look at the header of the first encryption
+     ELSE IF "CritNotChecked" \notin Dev /\ CritFailsO THEN Fail ELSE Goto("b64")
 \* rfc7797 registry: _safe_b64_header before the generic checks
 CheckB64 ==
   /\ pc = "b64"
@@ -163,7 +174,7 @@ CheckB64 ==
 TypeOkO(ty, c) == TypeOk(ty, c) \/ ("BoolIsInt" \in Dev /\ ty = "int" /\ c \in {"true", "false"})
 CheckRegistry ==
   /\ pc = "registry"
-  /\ LET base == Registry(case.mode, case.custom) \ AlgHeader(case.mode)
+  /\ LET base == Registry(case.mode, case.custom) \ AlgHeaderT[case.mode]
          missing == \E h \in base : h.required /\ ~Present(case, h.name)
                       /\ ~("RequiredCustomIgnored" \in Dev /\ h.name = "custom")
          illtyped == /\ case.c # "absent" /\ case.p \in {h.name : h \in base} /\ case.p # "crit"
@@ -173,7 +184,7 @@ CheckRegistry ==
 \* JWE: the algorithm's more_header_registry (required only with check_more, i.e. when consuming)
 CheckMore ==
   /\ pc = "more"
-  /\ LET more == AlgHeader(case.mode)
+  /\ LET more == AlgHeaderT[case.mode]
          missing == /\ case.op = "consume" /\ "CheckMoreNotPassed" \notin Dev
                     /\ \E h \in more : h.required /\ ~Present(case, h.name)
          illtyped == /\ case.c # "absent" /\ case.p \in {h.name : h \in more}
